@@ -24,7 +24,8 @@ RULE = ("Histories over an alphabet of ~60 configuration operations, each a real
         "override_dataclass_constructors, pass_through, check_type, fall_back_on_any, exclude_*), settings.errors.* (templates and "
         "callables), settings.base_schema.*; deserializer / serializer registration and reset_deserializers / reset_serializer; "
         "set_object_fields(cls, fields | None); type_name; schema(...)(tp); class alias(aliaser); class order; validator(owner=); "
-        "dependent_required(owner=); serialized(owner=); discriminator.  After EVERY operation 22 observations (deserialize valid / "
+        "dependent_required(owner=); serialized(owner=); discriminator; apischema.cache.set_size (it changes no result by itself, but every "
+        "later operation has to invalidate the resized caches too: each operation is also run right after one set_size).  After EVERY operation 22 observations (deserialize valid / "
         "invalid data, serialize, both schemas, on objects, NewType, converted wrapper, Union[A, B] and Union[B, A], enum) are taken warm "
         "and compared (a) with the same observations taken after apischema.cache.reset() in a fork()ed copy of the warm process (so that "
         "the comparison never repairs the history under test) and, at the end of the history, (b) with a replay of the configuration "
@@ -35,6 +36,7 @@ RULE = ("Histories over an alphabet of ~60 configuration operations, each a real
 ASSUMPTIONS = ["methods explicitly obtained before a change may keep the former behaviour (statement's last sentence): not compared",
                "cold start = fork of a process that only imported apischema and the harness, never a new OS process (5 ms instead of 150 ms)"]
 BUDGET = {"quick": 25, "thorough": 600}
+FUZZ = {"quick": 0, "thorough": 0}  # a case forks cold-start interpreters: too slow per execution for a coverage-guided campaign
 SHARDS = {"quick": 8, "thorough": 16}
 MIN_NONTRIVIAL = {"quick": 60, "thorough": 2000}
 TECHNIQUE = "model-based history testing: bounded-exhaustive op pairs + Hypothesis op sequences; oracle = warm vs cache.reset() in a fork vs forked pristine interpreter replay"
@@ -202,6 +204,8 @@ OPS = {
     "deserializer_leaf_from_tree": lambda: deserializer(leaf_from_tree),
     "reset_serializer_leaf": lambda: reset_serializer(Leaf),
     "reset_deserializers_leaf": lambda: reset_deserializers(Leaf),
+    "cache_set_size_64": lambda: apischema.cache.set_size(64),
+    "cache_set_size_2": lambda: apischema.cache.set_size(2),
 }
 
 def _obs(fn):
@@ -394,6 +398,24 @@ def snapshot_settings():
     return out
 
 
+_ORIG_CACHED = None
+
+
+def undo_set_size():
+    """apischema.cache.set_size rebinds the cached factories in their modules: put the original ones back after a case."""
+    global _ORIG_CACHED
+    import apischema.cache as c
+
+    if _ORIG_CACHED is None:
+        _ORIG_CACHED = list(c._cached)
+        return
+    for cached in _ORIG_CACHED:
+        w = cached.__wrapped__
+        if getattr(sys.modules[w.__module__], w.__name__) is not cached:
+            setattr(sys.modules[w.__module__], w.__name__, cached)
+    c._cached[:] = _ORIG_CACHED
+
+
 def restore_settings(snap):
     for holder, k, v in snap:
         try:
@@ -427,6 +449,10 @@ def enumerate_cases(tier):
         for i, (a, b_) in enumerate(itertools.product(names, repeat=2)):
             if i % 37 == 0 and (a, b_) not in done:
                 yield {"ops": [a, b_]}
+        # the cache size is changed once, then each registration / setting: the resized caches have to be invalidated as well
+        for a in names:
+            if not a.startswith("cache_set_size"):
+                yield {"ops": ["cache_set_size_64", a]}
 
 
 def op_group(name: str) -> str:
@@ -454,6 +480,7 @@ def describe(case):
 
 def evaluate(case, ctx):
     zyg = zygote()  # before anything is configured in this process
+    undo_set_size()  # (first call: remembers the original cached factories)
     ops = case["ops"]
     ctx.count()
     snap = snapshot_settings()
@@ -504,4 +531,6 @@ def evaluate(case, ctx):
             ctx.h("op:" + op)
     finally:
         b.close()
+        if any(op.startswith("cache_set_size") for op in ops):
+            undo_set_size()
         restore_settings(snap)
